@@ -166,6 +166,31 @@ func (x *FnCtx) step(fr *Frame, st *State, instr ssa.Instruction) {
 		r := x.alloc(st.heap, tb.IntC(1))
 		x.setReg(st, instr.(ssa.Value), r)
 	case *ssa.Lookup:
+		if ld, ok := in.X.(*ssa.UnOp); ok && ld.Op == token.MUL && in.CommaOk && !x.inInit {
+			if g, ok := ld.X.(*ssa.Global); ok {
+				if keys, ok := x.eng.constMapKeys[g]; ok {
+					// immutable map with a constant integer key set: presence is decided, the value stays unknown
+					k := x.term(fr, st, in.Index)
+					okc := tb.False()
+					for _, kc := range keys {
+						if kt, isT := x.constValue(kc).(*Term); isT {
+							okc = tb.Or(okc, tb.Eq(k, kt))
+						} else {
+							okc = nil
+							break
+						}
+					}
+					if okc != nil {
+						tv := x.freshOf("maplookup", in.Type())
+						if t, isTuple := tv.(TupleV); isTuple && len(t) == 2 {
+							t[1] = okc
+							x.setReg(st, in, t)
+							return
+						}
+					}
+				}
+			}
+		}
 		x.abstracted("map lookup")
 		x.setReg(st, in, x.freshOf("unk_lookup", in.Type()))
 	case *ssa.MapUpdate:
